@@ -48,6 +48,7 @@ class ResolverModel:
     def __init__(self, P: Program):
         self.P = P
         self.T0 = implicit_resolver_table(P)
+        self.init_problems: Dict[str, List[str]] = {}
         self.pristine = copy.deepcopy(self.T0)
         self.T_load, self.load_steps = self._instance_table('yatiml.loader:Loader')
         self.shared_table_mutated = (self.T0 != self.pristine)
@@ -94,12 +95,13 @@ class ResolverModel:
         if init is None:
             return self.T0, steps
         ev = Evaluator()
+        problems = self.init_problems.setdefault(cls_key, [])
         for st in init.node.body:
             for n in ast.walk(st):
                 if isinstance(n, (ast.Attribute,)) and n.attr == 'yaml_implicit_resolvers' \
                         and not isinstance(n.ctx, ast.Load):
-                    raise AnalysisError('%s.__init__ writes yaml_implicit_resolvers directly: unsupported shape'
-                                        % cls_key)
+                    problems.append('%s.__init__ assigns %s directly (line %d): the table in force is no longer the '
+                                    'per-instance result of the patch methods' % (c.name, ast.unparse(n), n.lineno))
             if isinstance(st, ast.Expr) and isinstance(st.value, ast.Call):
                 call = st.value
                 f = call.func
@@ -115,6 +117,15 @@ class ResolverModel:
                         except Exception as e:
                             raise AnalysisError('partial evaluation of %s raised %r' % (m.key, e))
                         steps.append(m.qual)
+            elif not isinstance(st, (ast.Expr, ast.Assign, ast.AnnAssign)):
+                # patch calls that are nested in a branch / loop / try are conditional
+                for n in ast.walk(st):
+                    if isinstance(n, ast.Call) and isinstance(n.func, ast.Attribute) and isinstance(n.func.value, ast.Name) \
+                            and n.func.value.id == 'self' and n.func.attr in c.methods \
+                            and any(isinstance(x, ast.Attribute) and x.attr == 'yaml_implicit_resolvers'
+                                    for x in ast.walk(c.methods[n.func.attr].node)):
+                        problems.append('%s.__init__ calls self.%s() conditionally (line %d): whether the YAML 1.2 patterns are '
+                                        'in force depends on the state the condition reads' % (c.name, n.func.attr, n.lineno))
         return obj.attrs.get('yaml_implicit_resolvers', self.T0), steps
 
     # ---- languages ------------------------------------------------------------------------------
